@@ -75,9 +75,17 @@ func startServer(bin, tmpl, work string) (*exec.Cmd, error) {
 		return nil, err
 	}
 	// the answers must come from the server started here, not from a stray one on the same port
-	if resp, err := httpc.Get(e2eBase + "/ping"); err == nil {
+	// (another check of this property may be finishing: wait for it up to three minutes before giving up)
+	for waited := 0; ; waited++ {
+		resp, err := httpc.Get(e2eBase + "/ping")
+		if err != nil {
+			break
+		}
 		resp.Body.Close()
-		return nil, fmt.Errorf("port %d is already served by another process", e2eHTTP)
+		if waited >= 180 {
+			return nil, fmt.Errorf("port %d is already served by another process", e2eHTTP)
+		}
+		time.Sleep(time.Second)
 	}
 	cmd := exec.Command(bin, "-config", conf)
 	cmd.Dir = work
